@@ -113,4 +113,14 @@ def npOnes (n : Int) : List Rat := List.replicate n.toNat 1
 
 def pyAbs (x : Rat) : Rat := PySpike.qabs x
 
+/-- `np.searchsorted(a, v, side='right')` on a sorted array: the number of entries `≤ v`
+    (numpy's documented meaning; binary search itself is not modelled) -/
+def npSearchRight (a : List Rat) (v : Rat) : Int := ((a.filter (· ≤ v)).length : Int)
+/-- `np.searchsorted(a, v, side='left')`: the number of entries `< v` -/
+def npSearchLeft (a : List Rat) (v : Rat) : Int := ((a.filter (· < v)).length : Int)
+/-- `np.sum(a)` -/
+def vSum (a : List Rat) : Rat := PySpike.qsum a
+/-- `sum(a == v)` -/
+def vCountEq (a : List Rat) (v : Rat) : Int := ((a.filter (· = v)).length : Int)
+
 end PySpike.Gen
